@@ -116,7 +116,21 @@ func holeFamily(r *rand.Rand, a *exact.Shape) *exact.Shape {
 	}
 	h := a.Holes[r.Intn(len(a.Holes))]
 	mn, mx := gen.Box(h)
-	switch r.Intn(7) {
+	switch r.Intn(8) {
+	case 7: // a polygon with a hole of its own strictly inside the hole (quarter-unit lattice)
+		if mx.X-mn.X >= gen.U && mx.Y-mn.Y >= gen.U {
+			q := int64(gen.U / 4)
+			cx, cy := (mn.X+mx.X)/2, (mn.Y+mx.Y)/2
+			outer := exact.Ring{{X: cx - 3*q, Y: cy - 3*q}, {X: cx + 3*q, Y: cy - 3*q}, {X: cx + 3*q, Y: cy + 3*q}, {X: cx - 3*q, Y: cy + 3*q}}
+			inner := exact.Ring{{X: cx - q, Y: cy - q}, {X: cx + q, Y: cy - q}, {X: cx + q, Y: cy + q}, {X: cx - q, Y: cy + q}}
+			if r.Intn(2) == 0 {
+				inner = gen.Reverse(inner)
+			}
+			if exact.ValidPoly(outer, []exact.Ring{inner}) {
+				return &exact.Shape{Kind: exact.KPoly, Ext: outer, Holes: []exact.Ring{inner}}
+			}
+		}
+		return &exact.Shape{Kind: exact.KPoint, Pts: []exact.P{{X: (mn.X + mx.X) / 2, Y: (mn.Y + mx.Y) / 2}}}
 	case 0: // the hole itself as a polygon (covers the hole exactly)
 		return &exact.Shape{Kind: exact.KPoly, Ext: gen.Rotate(h, r.Intn(len(h)))}
 	case 1: // a vertex of the hole
@@ -328,6 +342,10 @@ func largePairs(c *mon.Ctx, o pairOpts, item *int, sink pairSink) {
 			}
 			if r.Intn(2) == 0 {
 				b = &exact.Shape{Kind: exact.KPoly, Ext: inner}
+				if r.Intn(2) == 0 {
+					// a polygon with a hole of its own, inside (or touching) the hole of the frame
+					b.Holes = gen.AddHoles(r, inner, 1)
+				}
 			} else {
 				b = &exact.Shape{Kind: exact.KLine, Pts: []exact.P(gen.Rotate(inner, r.Intn(len(inner))))}
 			}
